@@ -1,6 +1,8 @@
 package main
 
 import (
+	"go/constant"
+	"go/token"
 	"go/types"
 	"strings"
 
@@ -68,6 +70,13 @@ func (v *FnView) GuardsAt(b *ssa.BasicBlock) []Atom {
 				continue
 			}
 			out = append(out, Atom{Cond: v.Term(ifi.Cond), Taken: i == 0, Instr: ifi, Fn: v.fn})
+			// a condition computed by a side-effect free predicate of the repository (`if outside(v, 0, 15)`,
+			// `if !supported(set, key)`) also states what the predicate's own conditions state
+			ex := v.predicateAtoms(ifi.Cond, i == 0)
+			for k := len(ex) - 1; k >= 0; k-- { // (the list is reversed below)
+				ex[k].Instr = ifi
+				out = append(out, ex[k])
+			}
 		}
 	}
 	// outermost first
@@ -75,6 +84,76 @@ func (v *FnView) GuardsAt(b *ssa.BasicBlock) []Atom {
 		out[i], out[j] = out[j], out[i]
 	}
 	return out
+}
+
+// predicateAtoms: cond is (a negation of) a call of a repository function returning one bool, whose body has no effect
+// but computing the result. When exactly one of its paths can produce the outcome `taken`, everything that path tested
+// holds at the branch; the atoms are expressed over the caller's argument terms.
+func (v *FnView) predicateAtoms(cond ssa.Value, taken bool) []Atom {
+	for {
+		u, ok := cond.(*ssa.UnOp)
+		if !ok || u.Op != token.NOT {
+			break
+		}
+		cond, taken = u.X, !taken
+	}
+	call, ok := cond.(*ssa.Call)
+	if !ok || call.Call.IsInvoke() {
+		return nil
+	}
+	callee := call.Call.StaticCallee()
+	if callee == nil || len(callee.Blocks) == 0 || !v.p.OwnedFunc(callee) || callee == v.fn || len(callee.FreeVars) > 0 {
+		return nil
+	}
+	res := callee.Signature.Results()
+	if res.Len() != 1 || !isBoolType(res.At(0).Type()) || len(callee.Params) != len(call.Call.Args) {
+		return nil
+	}
+	pt := map[*ssa.Parameter]*Term{}
+	for i, prm := range callee.Params {
+		pt[prm] = v.Term(call.Call.Args[i])
+	}
+	paths, err := Enumerate(callee, SymConfig{Prog: v.p, MaxDepth: 1, Collapse: true, ParamTerms: pt, MaxPaths: 64})
+	if err != nil || len(paths) == 0 {
+		return nil
+	}
+	var cands []*Path
+	for _, p := range paths {
+		if p.End != "return" || len(p.Ret) != 1 {
+			return nil // a panicking or cut path: not a plain predicate
+		}
+		for _, e := range p.Effects {
+			switch {
+			case e.Kind == "store" && e.Local, e.Kind == "return":
+			case e.Kind == "call" && (e.Inlined || e.Callee != nil && isPureExternal(e.Callee)):
+			default:
+				return nil
+			}
+		}
+		if k, isK := p.Ret[0].IsConst(); isK {
+			if k.Kind() == constant.Bool && constant.BoolVal(k) == taken {
+				cands = append(cands, p)
+			}
+			continue
+		}
+		cands = append(cands, p)
+	}
+	if len(cands) != 1 {
+		return nil
+	}
+	var out []Atom
+	for _, a := range cands[0].Atoms {
+		out = append(out, Atom{Cond: a.Cond, Taken: a.Taken, Fn: v.fn})
+	}
+	if _, isK := cands[0].Ret[0].IsConst(); !isK {
+		out = append(out, Atom{Cond: cands[0].Ret[0], Taken: taken, Fn: v.fn})
+	}
+	return out
+}
+
+func isBoolType(t types.Type) bool {
+	b, ok := t.Underlying().(*types.Basic)
+	return ok && b.Kind() == types.Bool
 }
 
 // compositeFields returns, for a struct allocated for a composite literal, the value stored
